@@ -11,6 +11,7 @@ import (
 	"go.lsp.dev/uri"
 
 	"github.com/juev/hledger-lsp/internal/analyzer"
+	"github.com/juev/hledger-lsp/internal/ast"
 	"github.com/juev/hledger-lsp/internal/cli"
 	"github.com/juev/hledger-lsp/internal/formatter"
 	"github.com/juev/hledger-lsp/internal/include"
@@ -253,7 +254,7 @@ func (s *Server) publishDiagnostics(ctx context.Context, docURI protocol.Documen
 	s.resolved.Store(docURI, resolved)
 	verifhook.Point("pd.loaded", string(docURI))
 
-	diagnostics := s.analyze(content)
+	diagnostics := s.analyze(content, resolved)
 
 	for _, err := range loadErrors {
 		severity := protocol.DiagnosticSeverityError
@@ -292,7 +293,7 @@ func (s *Server) publishDiagnostics(ctx context.Context, docURI protocol.Documen
 	})
 }
 
-func (s *Server) analyze(content string) []protocol.Diagnostic {
+func (s *Server) analyze(content string, resolved *include.ResolvedJournal) []protocol.Diagnostic {
 	journal, parseErrs := parser.Parse(content)
 
 	diagnostics := make([]protocol.Diagnostic, 0, len(parseErrs))
@@ -319,6 +320,7 @@ func (s *Server) analyze(content string) []protocol.Diagnostic {
 		external.Accounts = s.workspace.GetDeclaredAccounts()
 		external.Commodities = s.workspace.GetDeclaredCommodities()
 	}
+	external = withIncludedDeclarations(external, resolved)
 
 	var result *analyzer.AnalysisResult
 	if external.Accounts != nil || external.Commodities != nil {
@@ -351,6 +353,48 @@ func (s *Server) analyze(content string) []protocol.Diagnostic {
 	}
 
 	return diagnostics
+}
+
+// withIncludedDeclarations adds the accounts and commodities declared by the files the
+// document includes: they are in scope whether or not a workspace knows those files.
+// The maps handed in may be shared caches, so they are copied, never written to.
+func withIncludedDeclarations(external analyzer.ExternalDeclarations, resolved *include.ResolvedJournal) analyzer.ExternalDeclarations {
+	if resolved == nil || len(resolved.Files) == 0 {
+		return external
+	}
+	var accounts, commodities map[string]bool
+	for _, journal := range resolved.Files {
+		if journal == nil {
+			continue
+		}
+		for _, dir := range journal.Directives {
+			switch d := dir.(type) {
+			case ast.AccountDirective:
+				if accounts == nil {
+					accounts = make(map[string]bool, len(external.Accounts)+1)
+					for k := range external.Accounts {
+						accounts[k] = true
+					}
+				}
+				accounts[d.Account.Name] = true
+			case ast.CommodityDirective:
+				if commodities == nil {
+					commodities = make(map[string]bool, len(external.Commodities)+1)
+					for k := range external.Commodities {
+						commodities[k] = true
+					}
+				}
+				commodities[d.Commodity.Symbol] = true
+			}
+		}
+	}
+	if accounts != nil {
+		external.Accounts = accounts
+	}
+	if commodities != nil {
+		external.Commodities = commodities
+	}
+	return external
 }
 
 func (s *Server) shouldIncludeDiagnostic(code string, settings diagnosticsSettings) bool {
